@@ -185,6 +185,24 @@ pub fn replay(args: &Args, s: &mut Summary) {
         let recs: Vec<&Value> = hist.iter().map(|k| &alpha[k.as_u64().unwrap() as usize - 1]).collect();
         let acc: Vec<bool> = geta(&c, "acc").iter().map(|b| b.as_bool().unwrap()).collect();
         let want = resolve_strings(&c["st"], &alpha, hist);
+        // the same history under the code's reading of the two limits (Records!ParseFW, ConvBmW); the sentinels
+        // +-(2^31-1) in a single-precision field stand for +-2^31 (in hundredths)
+        let mut want_w = resolve_strings(c.get("stw").unwrap_or(&c["st"]), &alpha, hist);
+        if let Value::Object(m) = &mut want_w {
+            for k in ["StackLeniency", "HPDrainRate", "CircleSize", "OverallDifficulty", "ApproachRate"] {
+                match m.get(k).and_then(|v| v.as_i64()) {
+                    Some(2147483647) => { m.insert(k.into(), json!(214748364800i64)); }
+                    Some(-2147483647) => { m.insert(k.into(), json!(-214748364800i64)); }
+                    _ => {}
+                }
+            }
+            m.remove("hasAR");
+        }
+        let acc_w: Vec<bool> = c.get("accw").and_then(|a| a.as_array()).map(|a| a.iter().map(|b| b.as_bool().unwrap()).collect()).unwrap_or_default();
+        // which of the two listed findings a history can show
+        let has_f32_limit = recs.iter().any(|r| matches!(r.get("vc").and_then(|x| x.as_str()), Some("over") | Some("under"))
+            && ["StackLeniency", "HPDrainRate", "CircleSize", "OverallDifficulty", "ApproachRate"].contains(&r.get("k").and_then(|x| x.as_str()).unwrap_or("")));
+        let has_bm_under = recs.iter().any(|r| r.get("vc").and_then(|x| x.as_str()) == Some("under") && r.get("k").and_then(|x| x.as_str()) == Some("Bookmarks"));
         if !hist.is_empty() {
             s.nontrivial_key(&format!("{sec}|{}", c["h"]));
         }
@@ -302,7 +320,11 @@ pub fn replay(args: &Args, s: &mut Summary) {
                     if let Value::Object(m) = &mut w {
                         m.remove("hasAR");
                     }
-                    if got != w {
+                    if (got != w || verdicts != acc) && (has_f32_limit || has_bm_under) && got == want_w && via_beatmap == want_w && verdicts == acc_w {
+                        // exactly the code's reading of the limit: one of the two listed findings, nothing else
+                        s.mismatch(if has_f32_limit { "limit:single-precision-field-accepts-2^31" } else { "limit:bookmark-minus-2^31-kept" },
+                                   json!({"text": text, "got": got, "statement": w}));
+                    } else if got != w {
                         // name the first differing field
                         let field = w.as_object().and_then(|m| m.iter().find(|(k, v)| got.get(*k) != Some(*v)).map(|(k, _)| k.clone())).unwrap_or_default();
                         s.mismatch(&format!("{sec}:{field}"), json!({"text": text, "got": got, "want": w}));
@@ -374,7 +396,9 @@ fn random_record(sec: &str, rng: &mut Rng) -> Value {
                     5 => ("cmt", 2, ""),
                     6 => ("colon", 2, ""),
                     7 | 8 => ("float", *rng.pick(&[25, 950, 30, 1000, 45, 360, 395]), ""),
-                    9 if matches!(ty, "i32" | "flag" | "mode" | "bookmarks") => (*rng.pick(&["max", "min", "over", "under"]), 0, ""),
+                    // (the entry -2^31 of a bookmark list is a listed finding of the replay; the recorded traces stay clear of it)
+                    9 if ty == "bookmarks" => (*rng.pick(&["max", "min", "over"]), 0, ""),
+                    9 if matches!(ty, "i32" | "flag" | "mode") => (*rng.pick(&["max", "min", "over", "under"]), 0, ""),
                     _ => ("int", *rng.pick(&[0, 1, 2, 3, 5, -1, 8, 9]), ""),
                 }
             };
